@@ -1284,6 +1284,30 @@ def esl_gam_invcdf (fuel : Nat) (p mu lambda tau : α) : Option α :=
   let x2 := (tau / lambda)
   esl_gam_invcdf_loop1 fuel p mu lambda tau tol x1 x2 fuel
 
+/-- `esl_gam_Sample`: the code after loop 1 (line 324) -/
+def esl_gam_Sample_exit1 (fuel : Nat) (u : Nat → α) (mu lambda tau x : α) : Option α :=
+  some x
+
+/-- `esl_gam_Sample`: do-while loop 1 (line 324); `gas` counts the iterations still allowed, `none` = exhausted -/
+def esl_gam_Sample_loop1 (fuel : Nat) (u : Nat → α) (mu lambda tau : α) : Nat → Option α
+  | 0 => none
+  | gas + 1 =>
+    let x := (u (fuel - (gas + 1)))
+    let x := (mu + (x / lambda))
+    if (Num.eqb x mu = true) then
+      esl_gam_Sample_loop1 fuel u mu lambda tau gas
+    else
+      esl_gam_Sample_exit1 fuel u mu lambda tau x
+
+/-- `esl_gam_Sample` (esl_gamma.c:320); `u i` = the variate the i-th call `esl_rnd_Gamma(r, …)` yields (stream; `none` = fuel exhausted, the loop would draw again) -/
+def esl_gam_Sample (fuel : Nat) (u : Nat → α) (mu lambda tau : α) : Option α :=
+  esl_gam_Sample_loop1 fuel u mu lambda tau fuel
+
+/-- the arguments `esl_gam_Sample` passes to `esl_rnd_Gamma(r, …)` -/
+def esl_gam_Sample_draw (mu lambda tau : α) : List α :=
+  [tau]
+
+
 /-- `esl_gam_generic_pdf` (esl_gamma.c:232) -/
 def esl_gam_generic_pdf (x : α) (params : List α) : α :=
   let p := params
@@ -1866,6 +1890,7 @@ def dispatchLeaf (name : String) (a : List α) : Option Nat :=
 def dispatchDraw (name : String) (a : List α) : Option (List α) :=
   match name, a with
   | "esl_sxp_Sample", [x0, x1, x2] => some (esl_sxp_Sample_draw x0 x1 x2)
+  | "esl_gam_Sample", [x0, x1, x2] => some (esl_gam_Sample_draw x0 x1 x2)
   | "esl_lognormal_Sample", [x0, x1] => some (esl_lognormal_Sample_draw x0 x1)
   | _, _ => none
 
